@@ -121,3 +121,15 @@ claim('C19',
       'what a real file system does at a crash; atomicity of the summary rewrite itself',
       'Assumes the file-system callables mean what their names say.',
       'DESIGN.md 5/C19')
+
+claim('C20',
+      'origin-tracked store inventory over the call graph of the read API with a frozen classification, CFG single-publication of memos, freshness of derived handles',
+      'the complete set of stores to objects not created in the same call, in the 109 functions reachable from '
+      'the read-only API, is known and each is a per-call output, handle construction, an idempotent memo '
+      'published once per path, or the schema-tree build; output arrays and file handles are per call and nothing '
+      'per-call is cached on the handle; slicing gives the new handle its own metadata object and fresh copies of '
+      'every schema element before handle construction mutates them; make_part_file stores only into its own '
+      'copy of the file metadata (top-level fields) and the writers never store into the shared schema.',
+      'freedom from races inside pandas/numpy/fsspec; atomicity of individual memo stores; copy.copy(handle) shares metadata by design',
+      'Trusts engine/sharedstate.py and the classification table in engine/rules/c20.py (each entry has a one-line reason).',
+      'DESIGN.md 5/C20')
